@@ -138,6 +138,21 @@ def observe_case(spec):
             raised = type(e).__name__
         case['trees'].append({'same': bool(same), 'raised': raised, 'blanks': blanks, 'text': text, 'out': out if not raised else '',
                               'items': [{'first': bool(it) and is_id_continue(it[0]), 'last': bool(it) and is_id_continue(it[-1])} for it in items]})
+    # the matching grammar of the real TreeMatcher AFTER it served all the trees (internal projection, judged against
+    # Matcher.tla at drift level: it is a function of the parser's rules alone, whatever was matched before)
+    try:
+        def msym(x):
+            return ('t:' if x.is_term else '') + str(x.name)
+        case['matcher'] = {
+            'g': [{'lhs': str(r.origin.name), 'rhs': [str(x.name) for x in r.expansion], 'origin': str(r.origin.name), 'alias': str(r.alias or ''),
+                   'label': str(r.alias or r.origin.name), 'hasalias': bool(r.alias), 'expand1': bool(r.options.expand1), 'keepall': bool(r.options.keep_all_tokens),
+                   'helper': str(r.origin.name).startswith('_'), 'empty': [],
+                   'syms': [{'name': str(x.name), 'isterm': bool(x.is_term), 'filter_out': bool(getattr(x, 'filter_out', False)) if x.is_term else False,
+                             'inl': (not x.is_term) and str(x.name).startswith('_')} for x in r.expansion]} for r in p.rules],
+            'general': [{'lhs': str(r.origin.name), 'rhs': [msym(x) for x in r.expansion]} for r in rec.rules],
+            'roots': [{'label': str(lbl), 'lhs': str(r.origin.name), 'rhs': [msym(x) for x in r.expansion]} for lbl, rs in rec.rules_for_root.items() for r in rs]}
+    except Exception as e:
+        raise C.MachineryFailure('cannot read the matching rules of the TreeMatcher: %s' % e)
     return case
 
 
@@ -223,6 +238,49 @@ def judge(cases, ev, rep, tmp, name):
                            'alias_shared': alias_shared(c['spec']['G']) if 'G' in c['spec'] else False, 'spec': sp})
 
 
+def judge_matcher(cases, ev, tmp):
+    """TreeMatcher's rules against Matcher.tla (drift level)"""
+    ms = [c for c in cases if c.get('matcher') and not any(r['keepall'] for r in c['matcher']['g'])]
+    paths = []
+    CH = 700
+    for off in range(0, len(ms), CH):
+        paths.append(C.write_batch({'cases': [c['matcher'] for c in ms[off:off + CH]]}, tmp, 'c19_matcher_%d.json' % off))
+    results = C.tlc_parallel('TraceMatcher', TRACE_CFG, paths, continue_=True, timeout=3000)
+    drift = []
+    for pi, res in enumerate(results):
+        C.tlc_must_run(res, 'TraceMatcher')
+        ev.add_tlc('TraceMatcher', res, 'trace')
+        os.remove(paths[pi])
+        for v in sorted(set(tuple(x) for x in res.verdicts)):
+            c = ms[pi * CH + int(v[0]) - 1]
+            drift.append({'clause': v[2], 'grammar': c['gtext']})
+    ev.count('matcher_rule_sets_compared', len(ms))
+    ev.cov['drift'] = ev.cov.get('drift', 0) + len(drift)
+    ev.cov['drift_samples'] = ev.cov.get('drift_samples', []) + drift[:3]
+    if drift:
+        print('DRIFT property=%s the matching rules of %d TreeMatcher(s) differ from Matcher.tla (not a violation by itself; first: %s)'
+              % (PID, len(drift), json.dumps(drift[0])[:300]))
+    return drift
+
+
+def design(ev, tier):
+    """MC_Matcher: every node the parser builds is matched, by root rules of its own rule - except the two known gaps, which
+    TLC must find when the exemptions are taken out"""
+    cfg = 'SPECIFICATION Spec\nCONSTANT MaxLen = %d\n%s\nCHECK_DEADLOCK FALSE\n'
+    L = 4 if tier == 'quick' else 5
+    res = C.tlc('MC_Matcher', cfg % (L, 'INVARIANT Matchable\nINVARIANT OriginExact\nINVARIANT ExemptionsAreTheKnownGaps'), timeout=3000)
+    C.tlc_must_run(res, 'MC_Matcher')
+    ev.add_tlc('MC_Matcher MaxLen=%d' % L, res, 'design')
+    if not res.ok:
+        raise C.MachineryFailure('MC_Matcher: %s violated' % res.violated)
+    for inv, key in (('MatchableNoExemption', 'model_finds_expand1_over_inlined'), ('OriginExactNoExemption', 'model_finds_alias_shared')):
+        r2 = C.tlc('MC_Matcher', cfg % (4, 'INVARIANT ' + inv), timeout=900, workers=4)
+        C.tlc_must_run(r2, 'MC_Matcher ' + inv)
+        ev.cov['binding_selftest'][key] = bool(r2.violated)
+        if not r2.violated:
+            raise C.MachineryFailure('MC_Matcher does not find the known gap (%s): the model is vacuous' % inv)
+
+
 def body(tier, seed, replay):
     ev = C.Evidence(PID, tier, seed)
     rep = C.Reporter(PID, ev, known_matcher)
@@ -233,6 +291,7 @@ def body(tier, seed, replay):
             case = json.load(open(replay))
             judge([observe_case(case['spec'])], ev, rep, tmp, 'replay')
             return rep.finish()
+        design(ev, tier)
         cases = [c for c in C.pmap(observe_case, specs(tier, rng)) if not c['skip']]
         for c in cases:
             ev.count('grammars')
@@ -246,6 +305,7 @@ def body(tier, seed, replay):
         c = next(c for c in cases if c['unambiguous'] and c['trees'])
         ev.sample({'grammar': c['gtext'], 'text': c['trees'][0]['text'], 'reconstructed': c['trees'][0]['out']})
         judge(cases, ev, rep, tmp, 'sweep')
+        judge_matcher(cases, ev, tmp)
         # how many trees were inside the supported class is what TLC decided: count from the verdict details is not available; recompute cheaply
         if ev.cov['counts'].get('trees', 0) < 5000:
             raise C.MachineryFailure('vacuity: %s' % ev.cov['counts'])
